@@ -9,7 +9,11 @@ The driver (cxx/ref_driver.cpp) wires, with the tree's standard operators,
 
 and runs it under the simulation executor.  Case lines
 
-  1 start end shape op        shape 0 TS<Int>, 1 TSS<Int>, 2 TSD<Int,TS<Int>>;  op 0 if_then_else, 1 if_cmp
+  1 start end shape op        shape 0 TS<Int>, 1 TSS<Int>, 2 TSD<Int,TS<Int>>;  op 0 if_then_else, 1 if_cmp,
+                              3 if_then_else with the consumers INSIDE a nested graph (nested_<>): the dereferenced value
+                                crosses the boundary inwards; the nested graph evaluates all its nodes in its first cycle,
+                              4 if_then_else INSIDE a nested graph whose dereferenced result is exported: ORACLE-ONLY
+                                (not mirrored by the model, see agree(); finding KF-C13-nested-export-lag)
   2 k t payload...            source k ticks at t.  k=0 selector (one integer: if_then_else true iff != 0;
                               if_cmp <=0 LT, 1 EQ, >=2 GT), k=1..3 targets A,B,C, k=7 poke (wakes consumers 1,2)
                               TS payload: v;  TSS: +key add / -key remove;  TSD: pairs key value (value -1 erases)
@@ -130,8 +134,8 @@ def build_case(shape, op, cycles, start=1, rng=None, gap=None):
 
 # ---------------------------------------------------------------- named timing patterns
 def scenarios(shape, op):
-    T = 1 if op == 0 else 0      # selector value designating A
-    F = 0 if op == 0 else 1      # ... B
+    T = 1 if op != 1 else 0      # selector value designating A
+    F = 0 if op != 1 else 1      # ... B
     G = 2                        # ... C (if_cmp only)
     S = []
     cy = lambda sel=None, ticks=(), poke=False: {"sel": sel, "ticks": set(ticks), "poke": poke}
@@ -163,15 +167,15 @@ def scenarios(shape, op):
 # ---------------------------------------------------------------- random generation
 def gen(rng, tier, prop):
     shape = rng.choice([0, 0, 1, 1, 2, 2])
-    op = 0 if rng.random() < 0.75 else 1
+    op = rng.choice([0] * 11 + [1] * 4 + [3] * 4 + [4])
     r = rng.random()
     if r < 0.12:
         sc = rng.choice(scenarios(shape, op))
         return build_case(shape, op, sc, start=rng.randint(1, 3), rng=rng if rng.random() < 0.5 else None,
                           gap=(lambda i: rng.choice([1, 1, 2, 3])))
     n = rng.randint(3, 9 if tier == "quick" else 14)
-    targets = [A, B] if op == 0 else [A, B, C]
-    sel_vals = [0, 1] if op == 0 else [0, 1, 2]
+    targets = [A, B] if op != 1 else [A, B, C]
+    sel_vals = [0, 1] if op != 1 else [0, 1, 2]
     p_sel = rng.choice([0.25, 0.4, 0.6])
     p_tick = rng.choice([0.2, 0.35, 0.5])
     p_poke = rng.choice([0.0, 0.15, 0.3])
@@ -186,7 +190,7 @@ def gen(rng, tier, prop):
                 sel = last                                      # same value again
             else:
                 sel = rng.choice(sel_vals)
-            if op == 0 and sel == 1 and rng.random() < 0.1:
+            if op != 1 and sel == 1 and rng.random() < 0.1:
                 sel = rng.choice([2, -1, 7])                    # any non-zero is true
             if op == 1 and rng.random() < 0.08:
                 sel = rng.choice([-3, 5])                       # <=0 LT, >=2 GT
@@ -240,9 +244,15 @@ def enumerate_cases(prop):
             if pat:
                 yield build_case(shape, 0, pat)
     for shape in (0, 1, 2):
-        for op in (0, 1):
+        for op in (0, 1, 3):
             for sc in scenarios(shape, op):
                 yield build_case(shape, op, sc)
+                yield build_case(shape, op, sc, start=2, gap=lambda i: 2)
+    # consumers inside a nested graph: every pattern of <= 4 events
+    for shape in (0, 1, 2):
+        for pat in _patterns(4):
+            if pat:
+                yield build_case(shape, 3, pat, start=1 + (len(pat) % 2), gap=lambda i: 1)
 
 
 # ---------------------------------------------------------------- parsing
@@ -255,13 +265,15 @@ def parse_case(case):
             op = l[4] if len(l) > 4 else 0
     if shape not in (1, 2):
         shape = 0
-    op = 1 if op == 1 else 0
+    op = op if op in (1, 3, 4) else 0
     wired = {0, 1, 2, 7} | ({3} if op == 1 else set())
     script = {}
     for l in case:
         if l and l[0] == 2 and len(l) >= 4 and 0 <= l[1] < 8:
             if l[1] in wired and start <= l[2] < end:
                 script.setdefault(l[2], {})[l[1]] = l[3:]
+    if op == 3 and start < end:
+        script.setdefault(start, {})        # first cycle of the nested graph (the sources are scheduled on start)
     return start, end, shape, op, script
 
 
@@ -311,6 +323,24 @@ def parse_reading(l):
 
 # ---------------------------------------------------------------- the property, evaluated on the implementation's output
 def oracle(prop, case, out):
+    """see _oracle.  Cases with op 4 (selection inside a nested graph, result exported) violate the property
+    on the unchanged tree in almost every history (finding KF-C13-nested-export-lag): every failure on such a
+    case is reported under the single kind `nested_export_lag`, its detail naming the specific failure."""
+    fl = _oracle(prop, case, out)
+    if parse_case(case)[3] == 4:
+        return [("crash", d) if k == "crash" else ("nested_export_lag", "[%s] %s" % (k, d)) for k, d in fl]
+    return fl
+
+
+def agree(case, impl_out, model_out):
+    """exact equality, except op 4: the export path of a nested graph is NOT mirrored by the model (it is
+    defective, see the finding); those cases are checked by the oracle only."""
+    if parse_case(case)[3] == 4:
+        return isinstance(impl_out, list)
+    return isinstance(impl_out, list) and isinstance(model_out, list) and impl_out == model_out
+
+
+def _oracle(prop, case, out):
     """C13 stated directly on the observations (no use of the Coq model):
        the only script-derived notions are: which target the selector designates, the contents of
        each target (fold of its payloads), whether it ticked in a cycle."""
@@ -367,13 +397,16 @@ def oracle(prop, case, out):
             cur = sel_of(op, ev[0][0])
         retarget = cur != prev_sel
         poke = 7 in ev
+        force = op == 3 and t == start      # the nested graph holding the consumers evaluates them all in its first cycle
         at = {cid: cons.get((cid, t)) for cid in (0, 1, 2, 3)}
         where = "t=%d (designated %s -> %s, ticked %s)" % (t, prev_sel, cur, sorted(ticked))
 
         # ---- the reference output ticks exactly when the designated target changes
-        if retarget and t not in reft:
+        if op == 4:
+            pass                                # the reference is inside the nested graph: no watcher
+        elif retarget and t not in reft:
             fails.append(("ref_tick_missing", "selection changed but the reference did not tick, " + where))
-        if not retarget and t in reft:
+        elif not retarget and t in reft:
             fails.append(("spurious_ref_tick", "an unchanged reference was republished (reference ticked), " + where))
 
         # ---- deref_reads_target: value at EVERY evaluation = the designated target's current value
@@ -410,12 +443,18 @@ def oracle(prop, case, out):
             else:
                 # ---- same_reference_no_tick / unselected_never_reaches: nothing may reach the consumers
                 for cid in (0, 3):
-                    if at[cid] is not None:
+                    if at[cid] is not None and not force:
                         kind = "unselected_leak" if ticked else ("spurious_ref_tick" if 0 in ev else "spurious_eval")
                         fails.append((kind, "consumer %d evaluated though neither its target ticked nor the reference changed, %s" % (cid, where)))
+                for cid in (0, 3):
+                    r = at[cid]
+                    if r is not None and (r["mod"] or r["upd"] or r["rem"]):
+                        fails.append(("unselected_leak" if ticked else "spurious_modified",
+                                      "consumer %d sees modified=%d delta +%s -%s in a cycle where nothing it references changed, %s"
+                                      % (cid, r["mod"], r["upd"], sorted(r["rem"]), where)))
                 for cid in (1, 2):
                     r = at[cid]
-                    if r is not None and not poke:
+                    if r is not None and not poke and not force:
                         kind = "unselected_leak" if ticked else ("spurious_ref_tick" if 0 in ev else "spurious_eval")
                         fails.append((kind, "consumer %d evaluated without poke though neither its target ticked nor the reference changed, %s" % (cid, where)))
                     if r is not None and (r["mod"] or r["upd"] or r["rem"]):
@@ -455,9 +494,12 @@ def oracle(prop, case, out):
                             fails.append(("keyed_diff", "consumer %d delta +%s -%s, difference between old contents %s and new contents %s is +%s -%s, %s"
                                           % (cid, r["upd"], sorted(r["rem"]), old, new, exp_upd, sorted(exp_rem), where)))
         # ---- the passive consumer is evaluated exactly by its poke; the poked active one at least then
-        if (at[2] is not None) != poke:
+        if (at[2] is not None) != (poke or force):
             fails.append(("passive_woken" if at[2] is not None else "poke_missed",
-                          "consumer 2 (passive on the reference) evaluated=%d poke=%d, %s" % (at[2] is not None, poke, where)))
+                          "consumer 2 (passive on the reference) evaluated=%d poke=%d first-nested-cycle=%d, %s"
+                          % (at[2] is not None, poke, force, where)))
+        if force and (at[0] is None or at[1] is None):
+            fails.append(("nested_first_cycle", "consumers 0/1 inside the nested graph not evaluated in its first cycle, " + where))
         if poke and at[1] is None:
             fails.append(("poke_missed", "consumer 1 not evaluated on poke, " + where))
         # ---- direct readers: each target's own reader sees exactly its ticks (the reference machinery does not disturb them)
@@ -473,7 +515,8 @@ def oracle(prop, case, out):
 PROP_KINDS = {
     "C13": {"deref_value", "deref_delta", "deref_lmt", "missed_wake", "retarget_no_eval", "retarget_not_modified", "retarget_delta",
             "keyed_diff", "keyed_diff_stale_removed", "spurious_ref_tick", "ref_tick_missing", "unselected_leak", "spurious_eval", "spurious_modified",
-            "spurious_cycle", "passive_woken", "poke_missed", "evaluated_twice", "ran_not_valid", "direct_reader", "trace_shape"},
+            "spurious_cycle", "passive_woken", "poke_missed", "evaluated_twice", "ran_not_valid", "direct_reader", "trace_shape",
+            "nested_export_lag", "nested_first_cycle"},
 }
 
 
